@@ -137,3 +137,87 @@ def transform_problems(seed=0, rows=5, n_sensors=2, k=1, k_edit=None):
     if not (math.isclose(expl[1], bias, rel_tol=1e-9) and math.isclose(expl[3], var, rel_tol=1e-9) and math.isclose(expl[5], size, rel_tol=1e-9) and tuple(expl[0::2]) == (10.0, 1.0, 0.01)):
         problems.append(f"explain_score components {expl} differ from (10, {bias}, 1, {var}, 0.01, {size})")
     return problems, info
+
+
+def hand_run(est, info, X):
+    """NIS per row and sensor from running the estimator's EXPORTED filter by hand (predict dt=0.1, sensors in key order)."""
+    ekf = est.export_python()
+    state, cov = ekf.State(), ekf.Covariance()
+    keys = sorted(info["sensors"])
+    kk = len(info["controls"])
+    want = []
+    for i in range(X.shape[0]):
+        ctl = ekf.Control.from_data(X[i, :kk].reshape((kk, 1)).copy())
+        state, cov = ekf.process_model(0.1, state, cov, ctl)
+        off = kk
+        row = []
+        for key in keys:
+            m = len(info["sensors"][key])
+            z = ekf.make_reading(key, data=X[i, off : off + m].reshape((m, 1)).copy())
+            off += m
+            state, cov = ekf.sensor_model(state, cov, sensor_key=key, sensor_reading=z)
+            nu, S = ekf.innovations[key], ekf.sensor_prediction_uncertainty[key]
+            row.append(float((nu.T @ np.linalg.inv(S) @ nu)[0, 0]))
+        want.append(row)
+    return np.array(want)
+
+
+def transform_sequence_problems(seed=0, rows=6, n_sensors=2, k=1):
+    """STATEFUL: one estimator is transformed, reconfigured through set_params (editing threshold, then noise), and transformed
+    again on data with an outlier row; after every step transform must equal the hand-run of the filter export_python() returns."""
+    py, ui, est, info = simple_adapter(seed, n_sensors, k, {"innovation_filtering": None})
+    X = data_for(info, rows, seed)
+    X2 = X.copy()
+    X2[rows // 2, len(info["controls"]) :] += 40.0  # an outlier row followed by ordinary rows
+    problems = []
+    try:
+        steps = [("fresh estimator", lambda: None), ("after set_params(innovation_filtering=1.0)", lambda: est.set_params(innovation_filtering=1.0)), ("after set_params(innovation_filtering=None)", lambda: est.set_params(innovation_filtering=None))]
+        first_noise = sorted(est.process_noise, key=str)[0] if est.process_noise else None
+        if first_noise is not None:
+            steps.append(("after scaling one process noise through set_params", lambda: est.set_params(process_noise={**est.process_noise, first_noise: est.process_noise[first_noise] * 9.0})))
+        for label, act in steps:
+            act()
+            T = est.transform(X2)
+            want = hand_run(est, info, X2)
+            if T.shape != want.shape or not np.allclose(T, want, rtol=1e-9, atol=1e-12):
+                problems.append(f"{label}: transform differs from the hand-run of the exported filter (config {est.get_params()['config']})")
+                break
+    except Exception as e:
+        problems.append(f"sequence raised {type(e).__name__}: {(str(e).splitlines() or [''])[0][:160]}")
+    return problems, info
+
+
+def fit_with_failing_optimiser(seed=0):
+    """D-opt boundary: whatever the optimiser answers, fit either returns or raises MinimizationFailure.  The optimiser is replaced
+    by a stub reporting failure (after calling the objective once, as scipy would)."""
+    py, ui, est, info = simple_adapter(seed, 2, 1)
+    exc = repo_import("formak.exceptions")
+    X = data_for(info, 6, seed)
+    before = snapshot(est)
+
+    class Result:
+        success = False
+        message = "stub optimiser: iteration limit reached"
+
+        def __init__(self, x):
+            self.x = x
+
+    def stub(fun, x0, *a, **kw):
+        fun(np.array(x0, dtype=float))
+        return Result(np.array(x0, dtype=float))
+
+    old = py.minimize
+    py.minimize = stub
+    try:
+        try:
+            est.fit(X)
+            return ["fit returned although the optimiser reported failure"], info
+        except exc.MinimizationFailure:
+            pass
+        except Exception as e:
+            return [f"optimiser reports failure: fit raised {type(e).__name__} ({(str(e).splitlines() or [''])[0][:80]}) instead of MinimizationFailure"], info
+    finally:
+        py.minimize = old
+    if snapshot(est) != before:
+        return ["a failed fit left the estimator's parameters changed"], info
+    return [], info
